@@ -408,3 +408,38 @@ def rand_expr(rnd, d: int):
             kws = [(rnd.choice(["reverse", "default", "start", "base", "key"]), sub())]
         return ("call", f, args, kws)
     return ("meth", rnd.choice(RECVS), rnd.choice(METHODS), [sub() for _ in range(rnd.choice([0, 1, 1]))], [])
+
+
+# ---- validation of the primitive operations of the reference semantics on richer values --------
+RICH_VALUES = [None, True, False, -8, -3, -1, 0, 1, 2, 3, 7, 255, "", "a", "b", "ab", "ba", "A", "aa", " 1 ", "1_0",
+               (), (0,), (1,), (0, 1), (1, 0), (0, "a"), ((),), (None,), (1, None), (True, 0),
+               [], [0], [1], [0, 1], [1, "a"], [[1]], [(0,)], [None], ["a", "b"], ["b", "a"], [2, 1, 3], [True, 1, 0]]
+
+
+def prim_cases():
+    """every binary / comparison operator on every ordered pair of RICH_VALUES, the modelled builtins with one
+    and two arguments, the modelled methods"""
+    vals = [lit(v) for v in RICH_VALUES]
+    for o in BINOPS:
+        for a, b in itertools.product(vals, vals):
+            yield ("bin", o, a, b)
+    for o in CMPOPS:
+        for a, b in itertools.product(vals, vals):
+            yield ("cmp", a, [(o, b)])
+    for o in ("not", "neg", "pos", "inv"):
+        for a in vals:
+            yield ("un", o, ("bool", False, [a, a]))        # through `or` so that literal_eval does not see it
+    for f in MODELLED:
+        for a in vals:
+            yield ("call", f, [a], [])
+    for f in ("min", "max", "sum"):
+        for a, b in itertools.product(vals, vals):
+            yield ("call", f, [a, b], [])
+    for a in vals:
+        yield ("call", "sorted", [a], [("reverse", C(True))])
+        for r in ("", "a", "-", "ab"):
+            for m in ("join", "startswith", "endswith"):
+                yield ("meth", r, m, [a], [])
+    for r in ("", "a", "A b", "aB1", "z{", "@[`"):
+        yield ("meth", r, "upper", [], [])
+        yield ("meth", r, "lower", [], [])
